@@ -3,7 +3,7 @@
 From Coq Require Import String.
 From Coq Require Import List Strings.Byte NArith ZArith Bool.
 Require Import Bytes Show Tables Codec Norm CleanPath Chain.
-Require Serve Rot Ser.
+Require Serve Rot Ser ResetLang ResetModel ResetClass.
 Import ListNotations.
 
 Definition arg (args : list bs) (i : nat) : bs := nth i args [].
@@ -13,6 +13,24 @@ Fixpoint pairs_kv (a : list bs) : list kv :=
   | k :: v :: r => {| key := k; value := v; noValue := false |} :: pairs_kv r
   | _ => []
   end.
+
+Definition reset_unreset (ty m : bs) : bs :=
+  let ex := ResetClass.exempt_for m in
+  let keep := bs_eqb m (B "ResetWithoutConn") in
+  let f := 400%nat in
+  let go leaves ms entry := ResetLang.show_unreset (ResetLang.unreset f leaves ms entry ex) in
+  if bs_eqb ty (B "ResponseHeader") then go ResetModel.R_ResponseHeader_leaves ResetModel.R_ResponseHeader_methods ResetModel.R_ResponseHeader_entry_Reset
+  else if bs_eqb ty (B "RequestHeader") then go ResetModel.R_RequestHeader_leaves ResetModel.R_RequestHeader_methods ResetModel.R_RequestHeader_entry_Reset
+  else if bs_eqb ty (B "Request") then go ResetModel.R_Request_leaves ResetModel.R_Request_methods
+         (if keep then ResetModel.R_Request_entry_ResetWithoutConn else ResetModel.R_Request_entry_Reset)
+  else if bs_eqb ty (B "Response") then go ResetModel.R_Response_leaves ResetModel.R_Response_methods ResetModel.R_Response_entry_Reset
+  else if bs_eqb ty (B "URI") then go ResetModel.R_URI_leaves ResetModel.R_URI_methods ResetModel.R_URI_entry_Reset
+  else if bs_eqb ty (B "Cookie") then go ResetModel.R_Cookie_leaves ResetModel.R_Cookie_methods ResetModel.R_Cookie_entry_Reset
+  else if bs_eqb ty (B "Args") then go ResetModel.R_Args_leaves ResetModel.R_Args_methods ResetModel.R_Args_entry_Reset
+  else if bs_eqb ty (B "Trailer") then go ResetModel.R_Trailer_leaves ResetModel.R_Trailer_methods ResetModel.R_Trailer_entry_Reset
+  else if bs_eqb ty (B "RequestContext") then go ResetModel.R_RequestContext_leaves ResetModel.R_RequestContext_methods
+         (if keep then ResetModel.R_RequestContext_entry_ResetWithoutConn else ResetModel.R_RequestContext_entry_Reset)
+  else B "!UNKNOWN-TYPE".
 
 Definition entries : list (bs * (list bs -> bs)) := [
   (B "quote", fun a => quote (arg a 0));
@@ -29,7 +47,9 @@ Definition entries : list (bs * (list bs -> bs)) := [
   (B "sort_shape", fun a => Rot.sort_shape (arg a 0));
   (B "spec_shape", fun a => Rot.spec_shape (arg a 0));
   (B "append_header_line", fun a => Ser.append_header_line (arg a 0) (arg a 1));
-  (B "nl2sp", fun a => Ser.nl2sp (arg a 0))
+  (B "nl2sp", fun a => Ser.nl2sp (arg a 0));
+  (B "reset_exempt", fun a => join (B ",") (ResetClass.exempt_for (arg a 1)));
+  (B "reset_unreset", fun a => reset_unreset (arg a 0) (arg a 1))
 ].
 
 Fixpoint lookup (cmd : bs) (l : list (bs * (list bs -> bs))) : option (list bs -> bs) :=
